@@ -1,6 +1,7 @@
 package main
 
 import (
+	"math"
 	"fmt"
 	"reflect"
 	"sort"
@@ -191,12 +192,87 @@ func c10Check(r *obs.Run, a c10alpha, s []byte, k int, exhaustive bool) {
 			fail("frequencies", fmt.Sprintf("frequency of %s", c10Text(a, wd, k)), freq[kmerindex.Kmer(wd)], len(ps))
 		}
 	}
+	// the relative table is the same counts over the sequence length
+	if nf, ok := ki.NormalisedKmerFrequencies(); !ok || len(nf) != len(refPos) {
+		fail("frequencies", "NormalisedKmerFrequencies before Build", []interface{}{ok, len(nf)}, []interface{}{true, len(refPos)})
+	} else {
+		for wd, ps := range refPos {
+			if got := nf[kmerindex.Kmer(wd)] * float64(len(s)); math.Abs(got-float64(len(ps))) > 1e-6 {
+				fail("frequencies", fmt.Sprintf("normalised frequency of %s times the sequence length", c10Text(a, wd, k)), got, len(ps))
+				break
+			}
+		}
+	}
+	// the first answer is the caller's: entries are dropped and zeroed, then the table is asked for again
+	if len(freq) > 0 && r.Rng.Intn(3) == 0 {
+		n := 0
+		for km := range freq {
+			if n%3 == 0 {
+				delete(freq, km)
+			} else if n%3 == 1 {
+				freq[km] = 0
+			}
+			n++
+		}
+		freq2, ok := ki.KmerFrequencies()
+		if !ok || len(freq2) != len(refPos) {
+			fail("frequencies", "KmerFrequencies asked a second time, after the caller edited the first answer", []interface{}{ok, len(freq2)}, []interface{}{true, len(refPos)})
+		}
+		for wd, ps := range refPos {
+			if freq2[kmerindex.Kmer(wd)] != len(ps) {
+				fail("frequencies", fmt.Sprintf("frequency of %s on a second call, after the caller edited the first answer", c10Text(a, wd, k)), freq2[kmerindex.Kmer(wd)], len(ps))
+				break
+			}
+		}
+	}
 	ki.Build()
 	if f, ok := ki.KmerFrequencies(); ok || f != nil {
 		fail("frequencies", "KmerFrequencies after Build did not return nil,false", nil, nil)
 	}
+	if f, ok := ki.NormalisedKmerFrequencies(); ok || f != nil {
+		fail("frequencies", "NormalisedKmerFrequencies after Build did not return nil,false", nil, nil)
+	}
 	if ok, found := ki.Check(); !ok || found != nvalid {
 		fail("check", "Check()", []interface{}{ok, found}, []interface{}{true, nvalid})
+	}
+	// the raw tables (copies, by their documentation): finger[w-1]..finger[w] delimits the positions of word w in pos;
+	// FingerAt / PosAt read the same tables; then both copies are overwritten
+	{
+		fg, ps := ki.Finger(), ki.Pos()
+		ok := true
+		for wd, want := range refPos {
+			lo := 0
+			if wd > 0 {
+				lo = int(fg[wd-1])
+			}
+			hi := int(fg[wd])
+			if lo > hi || hi > len(ps) {
+				ok = false
+			} else {
+				g := append([]int(nil), ps[lo:hi]...)
+				sort.Ints(g)
+				ok = reflect.DeepEqual(g, want) || (len(g) == 0 && len(want) == 0)
+			}
+			if ok && ki.FingerAt(wd) != int(fg[wd]) {
+				ok = false
+			}
+			if !ok {
+				fail("positions", "Finger()/Pos() tables for "+c10Text(a, wd, k), []interface{}{lo, hi}, want)
+				break
+			}
+		}
+		for i := 0; ok && i < len(ps) && i < 50; i++ {
+			if ki.PosAt(i) != ps[i] {
+				fail("positions", fmt.Sprintf("PosAt(%d)", i), ki.PosAt(i), ps[i])
+				break
+			}
+		}
+		for i := range fg {
+			fg[i] = 0
+		}
+		for i := range ps {
+			ps[i] = -3
+		}
 	}
 	nwords := 1 << (2 * uint(k))
 	scribbled := 0
@@ -524,6 +600,21 @@ func c10Check(r *obs.Run, a c10alpha, s []byte, k int, exhaustive bool) {
 	}
 	if _, err := ki.KmerOf(c10Text(a, 0, k) + "a"); err == nil {
 		fail("kmerof", "KmerOf accepted a word of length k+1", nil, nil)
+	}
+	for _, n := range []int{0, 1, k - 1, k + 1, 2 * k} { // a k-mer has k letters: both copies of KmerOf say so
+		wd := strings.Repeat("a", n)
+		if a.cased {
+			wd = strings.Repeat("A", n)
+		}
+		if _, err := ki.KmerOf(wd); err == nil {
+			fail("kmerof", fmt.Sprintf("KmerOf accepted a word of %d letters for k=%d", n, k), wd, nil)
+		}
+		if _, err := kmerindex.KmerOf(k, lookUp, wd); err == nil {
+			fail("kmerof", fmt.Sprintf("package KmerOf accepted a word of %d letters for k=%d", n, k), wd, nil)
+		}
+	}
+	if _, err := kmerindex.KmerOf(k, lookUp, string(append([]byte(c10Text(a, 0, k))[:k-1], 'n'))); err == nil {
+		fail("kmerof", "package KmerOf accepted a word with an invalid letter", nil, nil)
 	}
 	bad := []byte(c10Text(a, r.Rng.Intn(nwords), k))
 	bad[r.Rng.Intn(k)] = 'n'
